@@ -22,7 +22,7 @@ AR = "blocker::Blocker::apply_removeparam"
 
 
 def check(run):
-    for cfg in ("A", "B"):
+    for cfg in run.cfgs("A", "B"):
         F = run.facts(cfg)
         run.guard("C14.1.piece-provenance", cfg, lambda: rule_pieces(run, F, cfg))
         run.guard("C14.2.inverse-constants", cfg, lambda: rule_constants(run, F, cfg))
